@@ -36,7 +36,7 @@ def run(tier: str, seed: int) -> int:
                 c = planned.get(cid)
                 if c is None:
                     continue
-                ok, errors = g.confirm_alone(c)
+                ok, errors, how = g.confirm_dropped(c)
                 if ok:
                     continue
                 # control: the same declaration without the derive must be valid Rust, else the generator is wrong
